@@ -1151,7 +1151,8 @@ set_remove_node_none(struct lyxp_set *set, uint32_t idx)
     assert(set && (set->type == LYXP_SET_NODE_SET));
     assert(idx < set->used);
 
-    if (set->val.nodes[idx].type == LYXP_NODE_ELEM) {
+    if (set->val.nodes[idx].type != LYXP_NODE_NONE) {
+        /* items of all the types are in the hash table */
         set_remove_node_hash(set, set->val.nodes[idx].node, set->val.nodes[idx].type);
     }
     set->val.nodes[idx].type = LYXP_NODE_NONE;
